@@ -156,17 +156,6 @@ def showUse (c : Char) (u : OptUse) : String :=
     | .nohandler => "n"
     | .handled f a => "h" ++ hx f ++ "." ++ (if a then "1" else "0")
 
-/-- repaired F17-PERS as an input transformation: a module object that does not fit the personality is
-    refused before any duplicate handling, exactly like an object without a type -/
-def persFirstDir (pers : Nat) (d : Dir) : Dir :=
-  { d with files := d.files.map fun f =>
-      match f.obj with
-      | .mod ds => if ds.pers &&& pers = 0 then { f with obj := .mod { ds with type := none } } else f
-      | _ => f }
-
-def persFirstEnv (e : Env) : Env :=
-  { e with envDir := e.envDir.map (persFirstDir e.pers), builtin := persFirstDir e.pers e.builtin }
-
 def stepModel (persFirst tieFix : Bool) (line : String) : String :=
   match parseCase (Driver.words line) emptyCase with
   | none => "bad-op"
